@@ -328,6 +328,19 @@ static void run_wide(Json& js, vh::Rng& rng, long budget) {
         resid(js, "log2", rerr(dsplib::log2(px), log2l((LD)px)));
         resid(js, "log10", rerr(dsplib::log10(px), log10l((LD)px)));
         resid(js, "tanh", rerr(tanh(arr_real{my})[0], tanhl((LD)my)));
+        // complex tanh over the whole plane, saturated arguments included (|re| far beyond where sinh and cosh overflow)
+        {
+            static const double RE[] = {0.0, 0.3, -2.0, 19.0, -40.0, 355.0, 400.0, -710.0, 1e4, -1e100};
+            const double tre = (rng.range(0, 2) == 0) ? RE[rng.range(0, 9)] : my * 3, tim = mx;
+            const cmplx_t g = tanh(arr_cmplx{cmplx_t(tre, tim)})[0];
+            LC w;
+            if (std::fabs(tre) > 30) {
+                w = LC(tre > 0 ? 1.0L : -1.0L, 0);   // 1 -+ 2 e^{-2|re|} (...): indistinguishable from +-1 in double
+            } else {
+                w = std::tanh(LC(tre, tim));
+            }
+            resid(js, "tanh-cmplx", cerr(g, w) / 8);
+        }
         resid(js, "pow2db", (double)(fabsl((LD)pow2db(px) - 10 * log10l((LD)px)) / (EPS * (10 * fabsl(log10l((LD)px)) + 10))));
         resid(js, "mag2db", (double)(fabsl((LD)mag2db(px) - 20 * log10l((LD)px)) / (EPS * (20 * fabsl(log10l((LD)px)) + 20))));
         const double db = (rng.unif() * 2 - 1) * 2000;
